@@ -73,6 +73,7 @@ class TrioEnv:
         self.in_loop = True
         self.offer_timers = True
         self.inject_filter: Any = None
+        self.injected: set[int] = set()  # (no mid-batch injection on trio)
         self.permute_batches = True
         self.pending_signals: list[int] = []
         self.quiescent_hooks: list[Callable[[], None]] = []
